@@ -44,7 +44,7 @@ var c17Whole = []string{"Foo", "foo", "fOO", "X-A", "x-a", "X-a"}
 var c17Fielded = []string{"Dict", "dict", "DICT"}
 var c17Keys = []string{"a", "bb", "k-1"}
 var c17Vals = []string{"x", "v1", "10", "abc-def", "a b", "p;q", "c=d", "s,t", "say \"hi\"", "", "line1\nline2", " lead", "é"}
-var c17FieldVals = []string{"x", "v1", "10", "abc-def", "a b", "p;q", "c=d", ""}
+var c17FieldVals = []string{"x", "v1", "10", "abc-def", "a b", "p;q", "c=d", "", "s,t", "a@b", "(p)", "[q]", "{r}", "w?", "u/v", "k:v", "it's", "<x>", "a,b,c", "m.n_o~p"}
 
 func init() {
 	register("C17",
